@@ -70,6 +70,40 @@ def addGroup (gs : List String) (g : String) (fault : Option String) : G :=
 def removeGroup (gs : List String) (g : String) (unstopped : Bool) (fault : Option String) : G :=
   run g fault unstopped removeSteps ⟨gs, [], none⟩
 
+/-! ### the groups' own subscriptions
+
+  A group object is *live* from the moment `config.make_group()` has made it until its `before_remove()` has run.  For a
+  listener pool that is exactly the time during which it is subscribed to its event types and to `EventRejectedEvent`
+  (`EventListenerPool.__init__` subscribes, `before_remove` = `_unsubscribe`); for the other group kinds `before_remove`
+  does nothing.  `GX` runs the same statement lists and records, next to the table, the live groups. -/
+
+structure GX where
+  g : G
+  live : List String            -- groups made and not yet `before_remove`d, in order
+deriving DecidableEq, Repr
+
+def stepX (grp : String) (fault : Option String) (unstopped : Bool) (s : GX) (st : Step) : GX :=
+  if s.g.res.isSome then s else
+  match st with
+  | .call f =>
+    if fault = some f then { s with g := step grp fault unstopped s.g st }
+    else if f = "before_remove" then { g := step grp fault unstopped s.g st, live := s.live.filter (· ≠ grp) }
+    else { s with g := step grp fault unstopped s.g st }
+  | .insertMade f =>
+    if fault = some f then { s with g := step grp fault unstopped s.g st }
+    else { g := step grp fault unstopped s.g st, live := if grp ∈ s.live then s.live else s.live ++ [grp] }
+  | _ => { s with g := step grp fault unstopped s.g st }
+
+def runX (grp : String) (fault : Option String) (unstopped : Bool) (steps : List Step) (s : GX) : GX :=
+  steps.foldl (stepX grp fault unstopped) s
+
+def addGroupX (gs live : List String) (g : String) (fault : Option String) : GX :=
+  if g ∈ gs then runX g fault false addWhenPresent ⟨⟨gs, [], none⟩, live⟩
+  else runX g fault false addWhenAbsent ⟨⟨gs, [], none⟩, live⟩
+
+def removeGroupX (gs live : List String) (g : String) (unstopped : Bool) (fault : Option String) : GX :=
+  runX g fault unstopped removeSteps ⟨⟨gs, [], none⟩, live⟩
+
 /-! the RPC methods `addProcessGroup` / `removeProcessGroup` around them (supervisor/rpcinterface.py): what is answered.
     Which exception classes the method catches around the Supervisor call and which fault it answers for each, and the
     fault for a false result, are the regenerated tables `rpcAddCaught`, `rpcAddFalse`, `rpcRemoveCaught`, `rpcRemoveFalse`. -/
@@ -232,25 +266,27 @@ def showAnswer : Answer → String
   | .fault c => s!"fault:{c}"
   | .escaped w => "raised:" ++ w
 
-/-- `case groups`: ops `add <g> <fault|->`, `remove <g> <unstopped 0|1> <fault|->` (the Supervisor methods) and
+/-- (the table and the notifications of `addGroupX` / `removeGroupX` are those of `addGroup` / `removeGroup`: Props/C11 `runX_g`)
+    `case groups`: ops `add <g> <fault|->`, `remove <g> <unstopped 0|1> <fault|->` (the Supervisor methods) and
     `rpcadd <g> <fault|-> <Class/Base/...|->`, `rpcremove <g> <0|1> <fault|-> <Class/Base/...|->` (the RPC methods; the exception's class with its bases),
     from an empty table -/
 def runGroups (_cfg : List String) (ops : List String) : List String :=
-  let rec go (gs : List String) : List String → List String
+  let rec go (gs live : List String) : List String → List String
     | [] => []
     | l :: r =>
-      let x : Option (G × String) := match words l with
-        | ["add", g, f] => some (addGroup gs g (faultOf f), showRes (addGroup gs g (faultOf f)).res)
-        | ["remove", g, "0", f] => some (removeGroup gs g false (faultOf f), showRes (removeGroup gs g false (faultOf f)).res)
-        | ["remove", g, "1", f] => some (removeGroup gs g true (faultOf f), showRes (removeGroup gs g true (faultOf f)).res)
-        | ["rpcadd", g, f, c] => some ((rpcAdd gs g (faultOf f) (c.splitOn "/")).1, showAnswer (rpcAdd gs g (faultOf f) (c.splitOn "/")).2)
-        | ["rpcremove", g, "0", f, c] => some ((rpcRemove gs g false (faultOf f) (c.splitOn "/")).1, showAnswer (rpcRemove gs g false (faultOf f) (c.splitOn "/")).2)
-        | ["rpcremove", g, "1", f, c] => some ((rpcRemove gs g true (faultOf f) (c.splitOn "/")).1, showAnswer (rpcRemove gs g true (faultOf f) (c.splitOn "/")).2)
+      let x : Option (GX × String) := match words l with
+        | ["add", g, f] => some (addGroupX gs live g (faultOf f), showRes (addGroup gs g (faultOf f)).res)
+        | ["remove", g, "0", f] => some (removeGroupX gs live g false (faultOf f), showRes (removeGroup gs g false (faultOf f)).res)
+        | ["remove", g, "1", f] => some (removeGroupX gs live g true (faultOf f), showRes (removeGroup gs g true (faultOf f)).res)
+        | ["rpcadd", g, f, c] => some (addGroupX gs live g (faultOf f), showAnswer (rpcAdd gs g (faultOf f) (c.splitOn "/")).2)
+        | ["rpcremove", g, "0", f, c] => some (removeGroupX gs live g false (faultOf f), showAnswer (rpcRemove gs g false (faultOf f) (c.splitOn "/")).2)
+        | ["rpcremove", g, "1", f, c] => some (removeGroupX gs live g true (faultOf f), showAnswer (rpcRemove gs g true (faultOf f) (c.splitOn "/")).2)
         | _ => none
       match x with
-      | none => "bad-op" :: go gs r
-      | some (x, res) => s!"res={res} | notes={commaOr (x.notes.map showNote)} | groups={commaOr x.groups}" :: go x.groups r
-  go [] ops
+      | none => "bad-op" :: go gs live r
+      | some (x, res) =>
+        s!"res={res} | notes={commaOr (x.g.notes.map showNote)} | groups={commaOr x.g.groups} | live={commaOr x.live}" :: go x.g.groups x.live r
+  go [] [] ops
 
 def showFNote : FNote → String
   | .plog pid ch d => s!"plog:{if ch then "o" else "e"}:{pid}:{hexOfBytes d}"
